@@ -132,6 +132,8 @@ func bytesEqual(a, b) (r)
 func Vote(ctx, id, from) (n)
   logged
   requires [C17] W(from)
+  // stored lists are well-formed values (A13)
+  requires forall q Int {ballots(store)[q]} :: 0 <= q && q < len(ballots(store)) ==> len(ballots(store)[q].Voters) >= 0
   ensures [C17] n >= 1
   // only the ballot list is written, nothing is notified
   ensures [C17] forall k Bytes {store.opt(k)} :: k != "ballots" ==> store.opt(k) == old(store).opt(k)
